@@ -175,6 +175,7 @@ func run(s *core.Shard) {
 	runW4(s, next)
 	runW5(s, next)
 	runW6(s, next)
+	runW7(s, next)
 	runW1(s, next)
 	runW2(s, next)
 }
